@@ -141,7 +141,7 @@ func (o *ob) fline(p *sipsp.PFLine) {
 func (o *ob) from(p *sipsp.PFromBody) {
 	if p == nil {
 		o.sep()
-		o.b = append(o.b, "null"...)
+		o.b = append(o.b, `"null"`...)
 		return
 	}
 	o.open('{')
@@ -189,7 +189,7 @@ func (o *ob) contacts(c *sipsp.PContacts) {
 	if c.N > 0 {
 		o.from(c.GetContact(c.N - 1))
 	} else {
-		o.b = append(o.b, "null"...)
+		o.b = append(o.b, `"null"`...)
 	}
 	o.close('}')
 }
@@ -212,7 +212,7 @@ func (o *ob) pais(c *sipsp.PPAIs) {
 func (o *ob) hdr(h *sipsp.Hdr) {
 	if h == nil {
 		o.sep()
-		o.b = append(o.b, "null"...)
+		o.b = append(o.b, `"null"`...)
 		return
 	}
 	o.open('{')
